@@ -54,7 +54,10 @@ Definition has_unsafe (cfg : config) : bool :=
   end.
 
 (* ---------------- objects and values ---------------- *)
-Inductive field := FStruct | FHdr | FQry | FPar | FBody.
+(* FVals: the value slices ([]string backing arrays) of the client's header entries.  A header
+   MAP built by a filter or by the GraphQL middleware (cloneHeaderMap) is a new object, but
+   its entries still point to these slices; only CloneRequestHeaders copies them. *)
+Inductive field := FStruct | FHdr | FQry | FPar | FBody | FVals.
 Inductive site :=
 | SOrig                 (* the request the router built *)
 | SMerge                (* clone made by parallelMerge for a branch *)
@@ -75,7 +78,7 @@ Inductive val :=
 
 Definition field_eqb (a b : field) : bool :=
   match a, b with
-  | FStruct, FStruct | FHdr, FHdr | FQry, FQry | FPar, FPar | FBody, FBody => true
+  | FStruct, FStruct | FHdr, FHdr | FQry, FQry | FPar, FPar | FBody, FBody | FVals, FVals => true
   | _, _ => false
   end.
 Definition site_eqb (a b : site) : bool :=
@@ -187,9 +190,10 @@ Definition lb_stage (b : backend) (s : pst) : list acc * pst :=
   let '(a, s1) := wr s FStruct v in
   (rd s FStruct ++ rd s FQry ++ a, s1).
 
-(* http proxy + executor: reads method/URL, copies the headers, drains the body *)
+(* http proxy + executor: copies the header values (reads every value slice), reads
+   method/URL and the header map, drains the body *)
 Definition http_stage (s : pst) : list acc :=
-  rd s FStruct ++ rd s FHdr ++
+  rd s FVals ++ rd s FStruct ++ rd s FHdr ++
   (if has_body s then rd s FBody ++ [Wr (pv s FBody) (VBody "")] else []).
 
 (* request builder: GeneratePath (reads Params), Method = backend method *)
@@ -217,11 +221,12 @@ Definition inner_accs (own : owner) (b : backend) (s : pst) : list acc :=
 Definition shallow_clone (o : obj) (s : pst) : list acc * pst :=
   let '(a, c) := alloc s FStruct o (px s FStruct) in (rd s FStruct ++ a, c).
 
-(* CloneRequest: new struct, copies of Headers and Params, the Body is drained and
+(* CloneRequest: new struct, copies of Headers (map AND value slices) and Params, the Body is drained and
    re-buffered twice (one reader assigned back into the SOURCE struct, one for the clone);
    Query stays shared.  Returns the accesses, the source afterwards and the clone. *)
 Definition deep_clone (own : owner) (st src_site : site) (src_own : owner) (s : pst) : list acc * pst * pst :=
-  let '(ah, c1) := alloc s FHdr (Ob own st FHdr) (px s FHdr) in
+  let '(av, c0) := alloc s FVals (Ob own st FVals) (px s FVals) in
+  let '(ah, c1) := alloc c0 FHdr (Ob own st FHdr) (px s FHdr) in
   let '(ap, c2) := alloc c1 FPar (Ob own st FPar) (px s FPar) in
   if has_body s then
     let drain := rd s FBody ++ [Wr (pv s FBody) (VBody "")] in
@@ -229,10 +234,10 @@ Definition deep_clone (own : owner) (st src_site : site) (src_own : owner) (s : 
     let '(aw, s2) := wr s1 FStruct (px s FStruct) in
     let '(ab2, c3) := alloc c2 FBody (Ob own st FBody) (px s FBody) in
     let '(as_, c4) := alloc c3 FStruct (Ob own st FStruct) (px s FStruct) in
-    (rd s FStruct ++ rd s FHdr ++ ah ++ rd s FPar ++ ap ++ drain ++ ab1 ++ aw ++ ab2 ++ as_, s2, c4)
+    (rd s FStruct ++ rd s FHdr ++ rd s FVals ++ av ++ ah ++ rd s FPar ++ ap ++ drain ++ ab1 ++ aw ++ ab2 ++ as_, s2, c4)
   else
     let '(as_, c4) := alloc c2 FStruct (Ob own st FStruct) (px s FStruct) in
-    (rd s FStruct ++ rd s FHdr ++ ah ++ rd s FPar ++ ap ++ as_, s, c4).
+    (rd s FStruct ++ rd s FHdr ++ rd s FVals ++ av ++ ah ++ rd s FPar ++ ap ++ as_, s, c4).
 
 (* concurrent middleware (proxy/concurrent.go): EVERY attempt gets a deep clone, made one
    after the other in the spawning goroutine while the earlier attempts already run; the
@@ -276,6 +281,7 @@ Definition init_vals (q : request) : vals :=
            | FQry => VMap (q_qry q)
            | FPar => VPar (q_par q)
            | FBody => match q_body q with Some b => VBody b | None => VNil end
+           | FVals => VMap (q_hdr q)
            end.
 Definition init_pst (q : request) : pst := {| pv := orig; px := init_vals q |}.
 (* every object that does not exist yet reads as VNil; the client's request is in place *)
